@@ -88,6 +88,13 @@ struct ItemReq {
     /// no body edits at all (verbatim text, used for the Kani lane)
     #[serde(default)]
     raw: bool,
+    /// shape guard: proof-hint key -> fingerprint of the statement the hint is anchored to (recorded on the unchanged tree);
+    /// a hint whose ordinal no longer carries that fingerprint is re-anchored to the unique statement that does, else lost
+    #[serde(default)]
+    proof_expect: BTreeMap<String, String>,
+    /// shape guard for `stmts: a b`: fingerprints of statements a and b-1
+    #[serde(default)]
+    stmts_expect: Vec<String>,
 }
 
 #[derive(Serialize, Default)]
@@ -115,6 +122,30 @@ struct ItemOut {
     fields: Vec<String>,
     n_closures: usize,
     n_loops: usize,
+    /// fingerprints (whitespace-collapsed first 48 characters) of the top-level statements of the body and of each loop body
+    stmt_fps: Vec<String>,
+    loop_fps: Vec<Vec<String>>,
+}
+
+fn fingerprint(_src: &Src, st: &syn::Stmt) -> String {
+    // token text (no comments, normalised spacing), first 48 characters
+    let t = st.to_token_stream().to_string();
+    t.chars().take(48).collect::<String>().trim_end().to_string()
+}
+
+/// ordinal of the statement a hint is anchored to: the recorded ordinal if it still carries the expected fingerprint,
+/// else the unique statement carrying it
+fn resolve_anchor(src: &Src, stmts: &[syn::Stmt], idx: usize, expect: Option<&String>, what: &str) -> Result<(usize, bool), String> {
+    match expect {
+        None => if idx < stmts.len() { Ok((idx, false)) } else { Err(format!("lost-anchor: statement {} for {}", idx, what)) },
+        Some(e) => {
+            if idx < stmts.len() && &fingerprint(src, &stmts[idx]) == e {
+                return Ok((idx, false));
+            }
+            let c: Vec<usize> = (0..stmts.len()).filter(|&k| &fingerprint(src, &stmts[k]) == e).collect();
+            if c.len() == 1 { Ok((c[0], true)) } else { Err(format!("lost-anchor: the statement `{}...` that {} is anchored to was not found (or is not unique) in the current function body", e, what)) }
+        }
+    }
 }
 
 #[derive(Serialize, Clone)]
@@ -709,6 +740,11 @@ fn process_fn(
                 bv.visit_block(b);
                 out.n_closures = bv.closures.len();
                 out.n_loops = bv.loops.len();
+                out.stmt_fps = b.stmts.iter().map(|st| fingerprint(src, st)).collect();
+                out.loop_fps = bv.loops.iter().map(|lp| {
+                    let body = match lp { syn::Expr::ForLoop(f) => &f.body, syn::Expr::While(w) => &w.body, syn::Expr::Loop(w) => &w.body, _ => unreachable!() };
+                    body.stmts.iter().map(|st| fingerprint(src, st)).collect()
+                }).collect();
 
                 // D4 .sum::<X>() -> iter_sum::<X, _>(..)
                 for m in &bv.sums {
@@ -908,8 +944,9 @@ fn process_fn(
                     } else {
                         (&b.stmts, key.parse().map_err(|_| format!("bad proof key {}", key))?)
                     };
-                    let st = stmts.get(idx).ok_or_else(|| format!("lost-anchor: statement {} for proof hint '{}'", idx, key))?;
-                    ctx.edits.insert(src.start(st), format!("{}\n        ", text), "D2p", format!("proof hint inserted before statement {}", key));
+                    let (idx, moved) = resolve_anchor(src, stmts, idx, req.proof_expect.get(key), &format!("proof hint '{}'", key))?;
+                    let st = &stmts[idx];
+                    ctx.edits.insert(src.start(st), format!("{}\n        ", text), "D2p", if moved { format!("proof hint {} re-anchored to statement {} (same statement text, new position)", key, idx) } else { format!("proof hint inserted before statement {}", key) });
                 }
                 for key in req.closures.keys() {
                     let k: usize = key.parse().map_err(|_| "bad closure key".to_string())?;
@@ -935,6 +972,14 @@ fn process_fn(
                 Some(k) if k > 0 => range = vec![0, k],
                 _ => return Err(format!("lost-anchor: no statement containing `{}`", req.stmts_until)),
             }
+        }
+        if req.stmts_until.is_empty() && range.len() == 2 && req.stmts_expect.len() == 2 && range[1] >= 1 {
+            let (a, _) = resolve_anchor(src, &b.stmts, range[0], Some(&req.stmts_expect[0]), "the first statement of the slice")?;
+            let (z, _) = resolve_anchor(src, &b.stmts, range[1] - 1, Some(&req.stmts_expect[1]), "the last statement of the slice")?;
+            if z - a != range[1] - 1 - range[0] && a < z + 1 {
+                return Err(format!("lost-anchor: the slice {:?} now spans a different number of statements ({}..={})", range, a, z));
+            }
+            range = vec![a, z + 1];
         }
         if range.len() != 2 || range[0] >= range[1] || range[1] > b.stmts.len() {
             return Err(format!("lost-anchor: statement range {:?} (function body has {} statements)", range, b.stmts.len()));
